@@ -43,7 +43,8 @@ THEOREM = {
     "inversion-on-priority-loop": "Asynkit.C11.inherit_immediate",
 }
 NONTRIVIAL = {"inherits", "inherits-through-chain-2", "inherits-through-chain-3", "inherits-through-chain-4",
-              "sched-decision-with-runnable-holder", "holder-blocked-on-lock", "holder-blocked-on-event"}
+              "sched-decision-with-runnable-holder", "holder-ran-ahead-of-medium-task",
+              "holder-blocked-on-lock", "holder-blocked-on-event"}
 
 
 def gen(rng, n):
@@ -63,7 +64,7 @@ def run(ctx):
     rng = ctx.rng
     S.explore(ctx, S.corpus_cases(PROP), KINDS, THEOREM, sched_oracle=True, label="corpus: ",
               nontrivial=NONTRIVIAL)
-    cases = gen(rng, 3000 if ctx.thorough() else 500)
+    cases = gen(rng, 30000 if ctx.thorough() else 2500)
     S.explore(ctx, cases, KINDS, THEOREM, sched_oracle=True, nontrivial=NONTRIVIAL)
     for c in cases[:2]:
         ctx.sample(c)
